@@ -2,7 +2,7 @@
    All of them are about the definitions of Raft/Model.v that Raft/Run.v evaluates in the
    correspondence checks. *)
 From Coq Require Import String Sorting.Sorted.
-From VP Require Import Base.Tactics Raft.Model Raft.Arms Raft.Gen_Commands Raft.ProofsSM Raft.ProofsLog Raft.ProofsRecover.
+From VP Require Import Base.Tactics Raft.Model Raft.Arms Raft.Gen_Commands Raft.ProofsSM Raft.ProofsLog Raft.ProofsRecover Raft.ProofsAgree.
 Open Scope Z_scope.
 
 (* ====================================================================== C35 *)
@@ -192,4 +192,51 @@ Proof.
   destruct C36_example_nontrivial as [d [Hd _]]. exists d. split.
   - eapply nth_error_In. exact Hd.
   - vm_compute in Hd. inv Hd. vm_compute. discriminate.
+Qed.
+
+(* ====================================================================== C37 (partial by design) *)
+(* Raft's own safety is openraft's and is a HYPOTHESIS here: every coordinator's storage is driven by calls that
+   conform (wf_hist) to one committed log G (log matching / leader completeness / state-machine safety), and an
+   acknowledged write is an entry of G. What is proved is what our code must add: with that, equal applied
+   positions give equal replicated state machines - on RocksDB, across crashes and restarts, and between an
+   in-memory and a persistent coordinator - and an acknowledged command stays folded into every later state. *)
+Theorem C37_agree_partial : forall G ops1 ops2, ground_ok G ->
+    wf_hist G rstore0 ops1 -> wf_hist G rstore0 ops2 ->
+    rcnt (rs_run ops1 rstore0) = rcnt (rs_run ops2 rstore0) ->
+    r_sm (rs_run ops1 rstore0) = r_sm (rs_run ops2 rstore0).
+Proof. exact agree_rocks. Qed.
+
+Theorem C37_agree_after_crash_partial : forall G ops1 ops2 d1 d2, ground_ok G ->
+    wf_hist G rstore0 ops1 -> wf_hist G rstore0 ops2 ->
+    In d1 (crash_disks ops1 rstore0) -> In d2 (crash_disks ops2 rstore0) ->
+    acnt (d_applied d1) = acnt (d_applied d2) ->
+    r_sm (ropen d1) = r_sm (ropen d2).
+Proof. exact agree_after_crash. Qed.
+
+Theorem C37_agree_mem_rocks_partial : forall G ops1 ops2, ground_ok G ->
+    wf_hist G rstore0 ops1 -> wf_hist G rstore0 ops2 ->
+    acnt (sv_applied (ms_sm (ms_run ops1 mstore0))) = rcnt (rs_run ops2 rstore0) ->
+    ms_sm (ms_run ops1 mstore0) = r_sm (rs_run ops2 rstore0).
+Proof. exact agree_mem_rocks. Qed.
+
+Theorem C37_ack_not_lost_partial : forall G ops i e c, ground_ok G -> wf_hist G rstore0 ops ->
+    nth_error G i = Some e -> e_pl e = PNormal c ->
+    Z.of_nat i < rcnt (rs_run ops rstore0) ->
+    exists before after,
+      cmds_of (gprefix G (rcnt (rs_run ops rstore0))) = (before ++ c :: after)%list /\
+      sv_state (r_sm (rs_run ops rstore0)) = apply_all after (apply_command (apply_all before cstate0) c).
+Proof. exact ack_not_lost. Qed.
+
+(* the hypotheses are satisfiable by two different histories over the same log (C36_example_conforming is one) *)
+Example C37_example_two_nodes :
+  let ops2 := [OInstall (leader_snapshot (firstn 3 ex_G)); OAppend (skipn 3 ex_G); OApply (skipn 3 ex_G)] in
+  wf_hist ex_G rstore0 ops2 /\
+  rcnt (rs_run ex_ops rstore0) = rcnt (rs_run ops2 rstore0) /\
+  d_log (r_disk (rs_run ex_ops rstore0)) <> d_log (r_disk (rs_run ops2 rstore0)).
+Proof.
+  cbn zeta. split; [|split; [vm_compute; reflexivity|vm_compute; discriminate]].
+  cbn [wf_hist]. repeat split.
+  all: try (repeat constructor; vm_compute; discriminate).
+  all: try (vm_compute; reflexivity).
+  exists 3. split; [vm_compute; split; [reflexivity|discriminate]|reflexivity].
 Qed.
